@@ -199,30 +199,15 @@ public:
 
   static void d2r_exp(TRefIn a_in, THessRefOut H_out)
   {
-    const auto [A, B, dA_dwz, dB_dwz] = [&]() -> std::array<Scalar, 4> {
-      const Scalar wz  = a_in.z();
-      const Scalar wz2 = wz * wz;
+    // A = (1 - cos w) / w^2, B = (w - sin w) / w^3 and their derivatives w.r.t. w, expressed in the
+    // Taylor tails of sin and cos (accurate for all w, no separate small-angle branch needed)
+    const Scalar wz  = a_in.z();
+    const Scalar wz2 = wz * wz;
 
-      if (wz2 < Scalar(eps2)) {
-        return {
-          Scalar(0.5) - wz2 / 24,
-          Scalar(1. / 6) - wz2 / 120,
-          -wz / 48,
-          -wz / 60,
-        };
-      } else {
-        const Scalar sTh = sin(wz);
-        const Scalar cTh = cos(wz);
-        const Scalar wz3 = wz2 * wz;
-        const Scalar wz4 = wz2 * wz2;
-        return {
-          (Scalar(1) - cTh) / wz2,
-          (wz - sTh) / wz3,
-          sTh / wz2 + 2 * cTh / wz3 - 2 / wz3,
-          -cTh / wz3 - 2 / wz3 + 3 * sTh / wz4,
-        };
-      }
-    }();
+    const Scalar A      = -detail::cos_2(wz2);
+    const Scalar B      = -detail::sin_3(wz2);
+    const Scalar dA_dwz = wz * (detail::sin_3(wz2) + 2 * detail::cos_4(wz2));
+    const Scalar dB_dwz = -wz * (detail::cos_4(wz2) - 3 * detail::sin_5(wz2));
 
     // -A * d(ad) + B * d(ad^2)
     // clang-format off
